@@ -48,10 +48,16 @@ Definition rels_of (l : lat_d) : rels_d := snd l.
 Inductive c06_case :=
 | CTrans (b : backend) (strs : list str) (k : ctx_d)
          (out : ires (ctx_d * ctx_d * ires bool))                       (* K.T, K.T.T, K.T.T == K *)
-| CPrimes (b : backend) (t : table)
-          (out : ires (list (list nat) * list (list nat) * list (list nat) * list (list nat)))
+| CPrimes (b : backend) (t : table) (basesA basesO : list (list nat))
+          (out : ires (list (list nat) * list (list nat) * list (list nat) * list (list nat)
+                       * (list (list nat) * list (list nat))
+                       * (list (list (list nat)) * list (list (list nat))
+                          * list (list (list nat)) * list (list (list nat)))))
             (* K.T.extension_i(X), K.T.intention_i(Y), K.intention_i(X), K.extension_i(Y)
-               for X in sublists (objects of K), Y in sublists (attributes of K) *)
+               for X in sublists (objects of K), Y in sublists (attributes of K);
+               the same two K.T operators by NAME (answers mapped back to indexes by the harness);
+               and per base set B of basesA (attributes of K) / basesO (objects of K):
+               K.T.extension_i(X, B), K.intention_i(X, B), K.T.intention_i(Y, B), K.extension_i(Y, B) *)
 | CLatT (b : backend) (strs : list str) (k : ctx_d)
         (out : ires (lat_d * lat_d * lat_d))                             (* L = lattice(K), L.T, lattice(K.T) *)
 | CCompl (b : backend) (strs : list str) (k : ctx_d)
@@ -178,19 +184,31 @@ Definition check_trans b strs k out : nat :=
 Definition subs (n : nat) := sublists (seq 0 n).
 Definition lists_eqb := list_eqb nat_list_eqb.
 
-Definition check_primes b t out : nat :=
+Definition lists3_eqb := list_eqb lists_eqb.
+
+Definition check_primes b t (basesA basesO : list (list nat)) out : nat :=
   let h := height t in let w := width t in
   let tt := transpose b t in
   match out with
-  | IOk (eT, iT, iK, eK) =>
+  | IOk (eT, iT, iK, eK, (eTn, iTn), (eTb, iKb, iTb, eKb)) =>
       let same :=
         lists_eqb eT (map (fun X => extension_i b tt X None) (subs h)) &&
         lists_eqb iT (map (fun Y => intention_i b tt Y None) (subs w)) &&
         lists_eqb iK (map (fun X => intention_i b t X None) (subs h)) &&
-        lists_eqb eK (map (fun Y => extension_i b t Y None) (subs w)) in
+        lists_eqb eK (map (fun Y => extension_i b t Y None) (subs w)) &&
+        lists3_eqb eTb (map (fun B => map (fun X => extension_i b tt X (Some B)) (subs h)) basesA) &&
+        lists3_eqb iKb (map (fun B => map (fun X => intention_i b t X (Some B)) (subs h)) basesA) &&
+        lists3_eqb iTb (map (fun B => map (fun Y => intention_i b tt Y (Some B)) (subs w)) basesO) &&
+        lists3_eqb eKb (map (fun B => map (fun Y => extension_i b t Y (Some B)) (subs w)) basesO) in
       let ok :=
         lists_eqb eT (map (int t) (subs h)) && lists_eqb iT (map (ext t) (subs w)) &&
-        lists_eqb eT iK && lists_eqb iT eK in
+        lists_eqb eT iK && lists_eqb iT eK &&
+        (* by name *)
+        lists_eqb eTn (map (int t) (subs h)) && lists_eqb iTn (map (ext t) (subs w)) &&
+        (* restricted to a base set: the filter of the base, in the order of the base *)
+        lists3_eqb eTb (map (fun B => map (fun X => int_spec t X B) (subs h)) basesA) &&
+        lists3_eqb iTb (map (fun B => map (fun Y => ext_spec t Y B) (subs w)) basesO) &&
+        lists3_eqb eTb iKb && lists3_eqb iTb eKb in
       code_of same ok
   | _ => 3
   end.
@@ -313,7 +331,7 @@ Definition check_mono (b : backend) strs k h out : nat :=
 Definition c06_check (c : c06_case) : nat :=
   match c with
   | CTrans b strs k out => check_trans b strs k out
-  | CPrimes b t out => check_primes b t out
+  | CPrimes b t bA bO out => check_primes b t bA bO out
   | CLatT b strs k out => check_latT b strs k out
   | CCompl b strs k out => check_compl b strs k out
   | CRelabel b strs k ps pc on' an' out => check_relabel b strs k ps pc on' an' out
@@ -330,7 +348,7 @@ Inductive c06_shown :=
 Definition c06_show (c : c06_case) : c06_shown :=
   match c with
   | CTrans b strs k _ => STrans (trans_model b (dec_ctx strs k))
-  | CPrimes b t _ => SPrimes (map (int t) (subs (height t))) (map (ext t) (subs (width t)))
+  | CPrimes b t _ _ _ => SPrimes (map (int t) (subs (height t))) (map (ext t) (subs (width t)))
   | CLatT b strs k out =>
       SLat (match out with IOk (l, _, _) => Some (lattice_T (dec_lat strs l)) | _ => None end)
            (map swap_pair (concepts_spec (fst (fst k))))
